@@ -2,8 +2,10 @@ package c08
 
 import (
 	"bytes"
+	"encoding/binary"
 	"encoding/hex"
 	"fmt"
+	"runtime"
 	"testing"
 
 	"github.com/safing/portbase/database/record"
@@ -393,4 +395,79 @@ func TestRegWrapperFormatGE128(t *testing.T) {
 			checkWrapperRoundTrip(t, wrapCase{db: "db", key: "k", meta: metaM{Created: 1}, format: uint8(f), data: d})
 		}
 	}
+}
+
+// ---------------------------------------------------------------- allocation follows the input, not a length field
+
+// allocatedBy returns the heap bytes allocated while f runs (the test process runs one case at a time).
+func allocatedBy(f func()) uint64 {
+	var before, after runtime.MemStats
+	runtime.ReadMemStats(&before)
+	f()
+	runtime.ReadMemStats(&after)
+	return after.TotalAlloc - before.TotalAlloc
+}
+
+// parseBudget: what parsing an input of n bytes may allocate. Deflate expands by at most about 1032:1, the gzip reader
+// itself needs some 50 KiB; everything beyond that was sized by a number read from the input.
+func parseBudget(n int) uint64 { return 4<<20 + 4096*uint64(n) }
+
+// TestPropAllocationBounded: "never ... trusts an unvalidated length field", for the fields that announce a size
+// without being an offset into the input: a stored record whose meta section is a compressed dsd document (dsd.Load
+// accepts one) carries the uncompressed size and a check sum in the gzip footer. Valid encodings with one such field
+// corrupted, and arbitrary sections that merely start like a gzip stream, must be answered with a record or an error
+// without allocating by the announced size. Announced sizes stay below 2^28 so that a parser that does trust them
+// fails this check instead of taking the machine down.
+func TestPropAllocationBounded(t *testing.T) {
+	rapid.Check(t, func(t *rapid.T) {
+		m := genMeta().Draw(t, "meta")
+		inner := rapid.SampledFrom([]uint8{dsd.GenCode, dsd.JSON}).Draw(t, "meta_format")
+		section, err := dsd.DumpAndCompress(m.build(), inner, dsd.GZIP)
+		if err != nil {
+			t.Fatalf("harness: cannot build a compressed meta section: %v", err)
+		}
+		announced := rapid.SampledFrom([]uint32{1 << 20, 1 << 24, 1<<27 + 12345, 1<<28 - 1}).Draw(t, "announced")
+		var in []byte
+		kind := rapid.SampledFrom([]string{"gzip_size_field", "gzip_size_and_crc", "bare_gzip_header", "truncated_stream", "untouched"}).Draw(t, "kind")
+		tail := append([]byte{dsd.JSON}, []byte(`{"a":"b"}`)...)
+		switch kind {
+		case "untouched":
+			in = append(append([]byte{1}, withLen(section)...), tail...)
+		case "gzip_size_field":
+			s := append([]byte(nil), section...)
+			binary.LittleEndian.PutUint32(s[len(s)-4:], announced)
+			in = append(append([]byte{1}, withLen(s)...), tail...)
+		case "gzip_size_and_crc":
+			s := append([]byte(nil), section...)
+			binary.LittleEndian.PutUint32(s[len(s)-4:], announced)
+			binary.LittleEndian.PutUint32(s[len(s)-8:], rapid.Uint32().Draw(t, "crc"))
+			in = append(append([]byte{1}, withLen(s)...), tail...)
+		case "bare_gzip_header":
+			s := []byte{dsd.GZIP, 0x1f, 0x8b, 0x08, 0x00, 0x00, 0x00, 0x00, 0x00, 0x00, 0xff}
+			s = append(s, rapid.SliceOfN(rapid.Byte(), 0, 24).Draw(t, "garbage")...)
+			s = binary.LittleEndian.AppendUint32(s, rapid.Uint32().Draw(t, "crc"))
+			s = binary.LittleEndian.AppendUint32(s, announced)
+			in = append(append([]byte{1}, withLen(s)...), tail...)
+		default:
+			cut := rapid.IntRange(12, len(section)-1).Draw(t, "cut")
+			s := append([]byte(nil), section[:cut]...)
+			s = binary.LittleEndian.AppendUint32(s, announced)
+			in = append(append([]byte{1}, withLen(s)...), tail...)
+		}
+		var o outcome
+		got := allocatedBy(func() { o, _ = parse("db", "k", exact(in)) })
+		if o.panic != nil {
+			t.Fatalf("NewRawWrapper(%s): %v", hx(in), o.panic)
+		}
+		if got > parseBudget(len(in)) {
+			t.Fatalf("ALLOCATION: parsing %d bytes (%s: a meta section whose gzip footer announces %d bytes) allocated %d bytes (budget %d): a size read from the input was trusted before it was validated; input %s",
+				len(in), kind, announced, got, parseBudget(len(in)), hx(in))
+		}
+		// (a JSON meta document cannot carry the two flags, which are unexported fields: compared for GenCode only)
+		if kind == "untouched" && (!o.ok || (inner == dsd.GenCode && o.meta != m)) {
+			t.Fatalf("a stored record with a compressed meta section (%s) is parsed as %v, expected meta %v", hx(in), o, m)
+		}
+		checkTotal(t, in)
+		stats.Case("alloc:"+hx(in), true, "alloc_"+kind, "alloc_outcome_ok_"+fmt.Sprint(o.ok))
+	})
 }
